@@ -22,6 +22,15 @@ func normalize(obj any) (any, error) {
 	case json.Number:
 		return normalizeNumber(obj2)
 
+	case int64:
+		// TOML (and YAML, for large values) decode integers as int64; every
+		// comparison in bkl expects the same Go type from every format.
+		if obj2 == int64(int(obj2)) {
+			return int(obj2), nil
+		}
+
+		return obj2, nil
+
 	default:
 		return obj2, nil
 	}
